@@ -121,6 +121,41 @@ def _mk_two_builds(rc, d2pi, rbt, decreasing):
     return body
 
 
+def _mk_settings(rc, d2pi, rbt):
+    """the constructor from its very first statement (options created from the caller's settings dict by the real options factory) to the call of
+    magneticFunctionsFromGrid: the caller's settings dictionaries hold exactly what they held before"""
+    def body(env):
+        fn, info = slices.slice_function(
+            tok.TokamakEquilibrium.__init__, slices.is_assign_to("self.user_options"), slices.is_call_stmt("magneticFunctionsFromGrid"),
+            ["self", "R1D", "Z1D", "psi2D", "psi1D", "fpol1D", "pressure", "psi_axis_gfile", "psi_bdry_gfile", "settings", "nonorthogonal_settings", "wall"],
+            tok.__dict__, name="init_from_first_statement")
+        settings = {"reverse_current": rc, "psi_divide_twopi": d2pi, "reverse_Bt": rbt, "nx_core": 7}
+        nonorth = {"nonorthogonal_xpoint_poloidal_spacing_length": 0.125}
+        s0, n0 = dict(settings), dict(nonorth)
+        psi2D, psi1D, fpol1D = mkarr(env, "psi2D", (2, 2)), mkarr(env, "psi1D", (3,)), mkarr(env, "fpol1D", (3,))
+        pressure = mkarr(env, "pressure", (3,), lo=0.5, hi=9)
+        env.assume((psi1D[1] > psi1D[0]) & (psi1D[2] > psi1D[1]) if env.mode == "sym" else (psi1D[1] > psi1D[0] and psi1D[2] > psi1D[1]), "psi1D increasing")
+        R1D, Z1D = numpy.array([1.0, 2.0]), numpy.array([-1.0, 1.0])
+        r0, z0 = R1D.copy(), Z1D.copy()
+        me = tok.TokamakEquilibrium.__new__(tok.TokamakEquilibrium)
+        import warnings
+        with warnings.catch_warnings():
+            warnings.simplefilter("ignore")
+            if env.mode == "sym":
+                fn.__globals__["np"] = PROXY
+            try:
+                fn(me, R1D, Z1D, psi2D, psi1D, fpol1D, pressure, env.real("psi_axis_gfile"), env.real("psi_bdry_gfile"), settings, nonorth, None)
+            finally:
+                fn.__globals__["np"] = numpy
+        env.witness("ran")
+        env.claim("options_created_from_the_settings", me.user_options.reverse_current == rc and me.user_options.psi_divide_twopi == d2pi and me.user_options.reverse_Bt == rbt
+                  and me.user_options.nx_core == 7)
+        env.claim("caller's_settings_dict_unchanged", settings == s0 and list(settings) == list(s0))
+        env.claim("caller's_nonorthogonal_settings_dict_unchanged", nonorth == n0 and list(nonorth) == list(n0))
+        env.claim("caller's_R1D_Z1D_unchanged", bool((R1D == r0).all() and (Z1D == z0).all()))
+    return body
+
+
 def _mk(rc, d2pi, rbt, extrap):
     def body(env):
         loc, orig, given, me, _ = run_prologue(env, rc, d2pi, rbt, extrap, psi_sol=None if not extrap else 99.0)
@@ -150,3 +185,15 @@ for _rc in (False, True):
                                       desc="option handling and profile-spline set-up run twice on the caller's same arrays: arrays unchanged, second construction builds the same splines",
                                       stubs=["InterpolatedUnivariateSpline -> record of abscissa/ordinates"],
                                       bounds="reverse_current=%s psi_divide_twopi=%s reverse_Bt=%s, psi1D %s" % (_rc, _d, _rb, "decreasing" if _dec else "increasing")))
+
+for _rc, _d, _rb in ((False, False, False), (True, True, True), (True, False, False), (False, True, True)):
+    OBLIGATIONS.append(Ob("settings_unmodified_rc%d_2pi%d_rbt%d" % (_rc, _d, _rb), _mk_settings(_rc, _d, _rb), tier="quick", family="prologue",
+                          encodes=["hypnotoad.cases.tokamak:TokamakEquilibrium.__init__"],
+                          desc="from the first statement of the constructor: the caller's settings / nonorthogonal_settings dictionaries and R1D, Z1D are left as they were",
+                          stubs=["(real optionsfactory)"], bounds="reverse_current=%s psi_divide_twopi=%s reverse_Bt=%s" % (_rc, _d, _rb)))
+import harness.c11 as _c11  # noqa: E402
+for _n in (3, 4):
+    OBLIGATIONS.append(Ob("wall_list_unmodified_%d_vertices" % _n, _c11._mk_orientation(_n), tier="quick", family="prologue",
+                          encodes=["hypnotoad.cases.tokamak:TokamakEquilibrium.__init__"],
+                          desc="the constructor stores the wall anticlockwise without reversing or otherwise modifying the caller's list (shared with C11)",
+                          bounds="%d symbolic vertices, either orientation" % _n))
